@@ -476,6 +476,34 @@ func (x *D) OkE14Del(id int) {
 	x.Unlock()
 }
 
+// ---- E11: resource parked in a fresh object
+type holder struct{ l net.Listener }
+
+func BadE11FreshObject(addr string, ready bool) (*holder, error) {
+	h := &holder{}
+	var err error
+	if h.l, err = net.Listen("tcp", addr); err != nil {
+		return nil, err
+	}
+	if !ready {
+		return nil, errors.New("not configured")
+	}
+	return h, nil
+}
+
+func OkE11FreshObject(addr string, ready bool) (*holder, error) {
+	h := &holder{}
+	var err error
+	if h.l, err = net.Listen("tcp", addr); err != nil {
+		return nil, err
+	}
+	if !ready {
+		_ = h.l.Close()
+		return nil, errors.New("not configured")
+	}
+	return h, nil
+}
+
 // ---- round-8 rules: requeue, publish order, complete read
 type Q struct {
 	q     chan *mangos.Message
@@ -660,7 +688,7 @@ func runSelfTests(verifDir string) SelfTestResult {
 		"BadE13Resize":            "e13",
 		"BadE14Add":               "e14",
 	}
-	silent := []string{"okE1Defer", "OkE3Read", "OkE3bRecheck", "OkCondWait", "OkE5Once", "OkE5UniqueThenWrite", "OkE6d", "OkE6dRange", "SetN", "Close", "NewT", "OkE5Loop", "OkBufferBeforeFree", "OkE11Closed", "OkE11StoredFirst", "OkForward", "OkPublish", "OkFullRead", "Arm", "OkE12Stop", "OkE12Helper", "peerReady", "OkE12Companion", "OkE12Map", "OkE12LazyMap", "OkE13Resize", "NewW", "Wait", "OkE14Del", "All"}
+	silent := []string{"okE1Defer", "OkE3Read", "OkE3bRecheck", "OkCondWait", "OkE5Once", "OkE5UniqueThenWrite", "OkE6d", "OkE6dRange", "SetN", "Close", "NewT", "OkE5Loop", "OkBufferBeforeFree", "OkE11Closed", "OkE11StoredFirst", "OkForward", "OkPublish", "OkFullRead", "Arm", "OkE12Stop", "OkE12Helper", "peerReady", "OkE12Companion", "OkE12Map", "OkE12LazyMap", "OkE13Resize", "NewW", "Wait", "OkE14Del", "All", "OkE11FreshObject"}
 	var names []string
 	for k := range want {
 		names = append(names, k)
